@@ -30,7 +30,7 @@ import warnings
 import zipfile
 from fractions import Fraction
 
-from corr.harness import coq_build, run_model, exc_name, _run, VERIF
+from corr.harness import coq_build, run_model, exc_name, _run, VERIF, REPO
 
 TB = [
     "Pillow (format sniffing, pixel size, the dpi entry of Image.info) is outside the model: what it reports for each "
@@ -594,6 +594,52 @@ def gen_history(rng, tier, hid):
     return {"specs": specs, "ops": ops}
 
 
+def corpus_decks():
+    """decks under /repo that already contain image parts: (relative path, slides, image parts)"""
+    import glob
+
+    from pptx import Presentation
+
+    out = []
+    for f in sorted(glob.glob(os.path.join(REPO, "**", "*.pptx"), recursive=True)):
+        try:
+            with warnings.catch_warnings():
+                warnings.simplefilter("ignore")
+                prs = Presentation(f)
+            n = len(list(prs.part.package._image_parts))
+            if n:
+                out.append((os.path.relpath(f, REPO), len(prs.slides), n))
+        except Exception:  # noqa
+            continue
+    return out
+
+
+def gen_corpus_history(rng, deck, nslides, nparts, hid):
+    """on a deck that already holds images: add its own images again (must reuse the parts),
+    add new ones (must take the first free number), re-open, and again"""
+    specs = [{"fmt": "PART", "index": j} for j in range(nparts)]
+    specs.append(gen_image_spec(rng, 900000 + hid * 10))
+    specs.append(gen_image_spec(rng, 900001 + hid * 10))
+    ops = []
+    ns = nslides
+    if ns == 0 or rng.random() < 0.3:
+        ops.append(["a", 6])
+        ns += 1
+    dims = [None, None, 914400, 0, 12700]
+    for rnd in range(2):
+        for _ in range(rng.randint(2, 5)):
+            ops.append(["i", rng.randrange(ns), rng.randrange(len(specs)), rng.choice(["P", "P", "P", "M", "O"]),
+                        rng.choice(["path", "stream", "misnamed"]), None, None])
+            if ops[-1][3] == "P":
+                ops[-1][5], ops[-1][6] = rng.choice(dims), rng.choice(dims)
+        if rnd == 0:
+            ops.append(["r"])
+            if rng.random() < 0.5:
+                ops.append(["a", 6])
+                ns += 1
+    return {"deck": deck, "specs": specs, "ops": ops}
+
+
 class Deck:
     """Runs a history on python-pptx and records what the property talks about."""
 
@@ -602,8 +648,14 @@ class Deck:
 
         self.hist = hist
         self.tmp = tmp
-        self.blobs = [make_blob(s) for s in hist["specs"]]
-        self.prs = Presentation()
+        self.prs = Presentation(os.path.join(REPO, hist["deck"])) if hist.get("deck") else Presentation()
+        pkg = self.prs.part.package
+        self.init_image_parts = list(pkg._image_parts)
+        self.init_other_parts = [p for p in pkg.iter_parts() if p not in self.init_image_parts]
+        self.part_blobs = [p.blob for p in self.init_image_parts]
+        self.blobs = [self.part_blobs[s["index"] % len(self.part_blobs)] if s["fmt"] == "PART" else make_blob(s)
+                      for s in hist["specs"]]
+        self.init_slides = self._slides_text()
         self.nmovie = 0
         self.nlink = 0
         self.nfile = 0
@@ -612,13 +664,30 @@ class Deck:
 
     # -- initial state for the model
     def initial_parts(self):
+        """image-related parts first, in the order _find_by_sha1 meets them, then the others"""
         from pptx.parts.image import ImagePart
 
-        pkg = self.prs.part.package
-        related = list(pkg._image_parts)
         out = []
-        for p in pkg.iter_parts():
-            out.append("%s;%s;~;%d;%d" % (p.partname, p.content_type, isinstance(p, ImagePart), p in related))
+        n = len(self.hist["specs"])
+        for j, p in enumerate(self.init_image_parts):
+            out.append("%s;%s;%d;%d;1" % (p.partname, p.content_type, n + j, isinstance(p, ImagePart)))
+        for p in self.init_other_parts:
+            out.append("%s;%s;~;%d;0" % (p.partname, p.content_type, isinstance(p, ImagePart)))
+        return out
+
+    def _slides_text(self):
+        from pptx.opc.constants import RELATIONSHIP_TYPE as RT
+
+        out = []
+        for sl in self.prs.slides:
+            rows = []
+            for rid, rel in sl.part.rels.items():
+                num = int(rid[3:]) if rid.startswith("rId") and rid[3:].isdigit() and str(int(rid[3:])) == rid[3:] else 0
+                tgt = ""
+                if not rel.is_external and rel.reltype == RT.IMAGE:
+                    tgt = str(rel.target_part.partname)
+                rows.append("%d=%s" % (num, tgt))
+            out.append(";".join(rows))
         return out
 
     def _file_arg(self, img, via):
@@ -645,7 +714,8 @@ class Deck:
         k = op[0]
         try:
             if k == "a":
-                self.prs.slides.add_slide(self.prs.slide_layouts[op[1]])
+                lays = self.prs.slide_layouts
+                self.prs.slides.add_slide(lays[op[1] if op[1] < len(lays) else 0])
                 return "ok:u"
             if k == "o":
                 sp = self.slide(op[1]).part
@@ -718,18 +788,31 @@ class Deck:
         for p in pkg._image_parts:
             rows.append("%s;%s;%s;%s" % (show(str(p.partname)), show(p.content_type),
                                          "True" if isinstance(p, ImagePart) else "False",
-                                         " ".join(str(x) for x in p.blob)))
+                                         " ".join(str(x) for x in surrogate(p.blob))))
         return ",".join(sorted(rows))
+
+
+BIG = 12000
+
+
+def surrogate(b):
+    """The model only compares blobs for equality and returns them; a long blob travels as a
+    short stand-in that determines it (length + SHA-256, computed by the harness)."""
+    if len(b) <= BIG:
+        return b
+    import hashlib
+
+    return b"\x00big:%d:" % len(b) + hashlib.sha256(b).digest()
 
 
 def model_case(hist, deck, initial, view_sizes):
     """wire fields of the history for the extracted model"""
-    k = len(deck.blobs)
-    f = ["his", k]
-    f += [b.decode("latin-1") for b in deck.blobs]
-    f += [pil_meta(b) for b in deck.blobs]
+    allb = deck.blobs + deck.part_blobs
+    f = ["his", len(allb)]
+    f += [surrogate(b).decode("latin-1") for b in allb]
+    f += [pil_meta(b) for b in allb]
     f += [len(initial)] + initial
-    f += [0]
+    f += [len(deck.init_slides)] + deck.init_slides
     for oi, op in enumerate(hist["ops"]):
         if op[0] == "a":
             f.append("a")
@@ -777,13 +860,6 @@ def fold_model_out(hist, line):
     return res, ",".join(sorted(parts[1].split(","))) if parts[1] else ""
 
 
-def history_safe_for_model(hist, deck):
-    """A movie/OLE step whose image is rejected leaves the media/OLE relationships behind in
-    the implementation in an order the model does not describe (the model's helper step
-    comes first in both cases, so this is fine) -- nothing to exclude.  Kept as a hook."""
-    return True
-
-
 def oracle_history(ck, hist, deck, outs):
     """The property statement on the saved zip and the live objects."""
     import re
@@ -829,6 +905,8 @@ def oracle_history(ck, hist, deck, outs):
             if d in seen:
                 ck.violation("duplicate-media", "members %s and %s of save #%d hold the same bytes" % (seen[d], n, zi), info)
             seen[d] = n
+            if d in deck.part_blobs:
+                continue  # a part the deck already had: its name and type are the author's, not python-pptx's
             kind, size, dpi = sniff(d)
             ext = n.rsplit(".", 1)[-1] if "." in n.rsplit("/", 1)[-1] else ""
             ct = overrides.get("/" + n, defaults.get(ext.lower()))
@@ -842,7 +920,7 @@ def oracle_history(ck, hist, deck, outs):
             for img, rec in used.items():
                 cnt = sum(1 for d in data.values() if d == blobs[img])
                 if cnt != 1:
-                    ck.violation("stored-%d-times" % cnt, "image %d (used on slide %d) is stored %d times in the saved file" % (
+                    ck.violation("stored-not-once", "image %d (used on slide %d) is stored %d times in the saved file" % (
                         img, rec["slide"], cnt), info)
                 if "ppt/" + rec["partname"][5:] in data and data["ppt/" + rec["partname"][5:]] != blobs[img]:
                     ck.violation("stored-bytes-differ", "member %s differs from the bytes given" % rec["partname"], info)
@@ -850,10 +928,12 @@ def oracle_history(ck, hist, deck, outs):
     for rec in deck.records:
         if not rec["ok"] or rec["use"] != "P":
             continue
+        spec = hist["specs"][rec["img"]]
+        if spec["fmt"] not in FMTS:
+            continue  # corpus images may carry EXIF or other resolution sources this reader does not parse
         kind, size, dpi = sniff(blobs[rec["img"]])
         if kind is None or size is None or None in size:
             continue
-        spec = hist["specs"][rec["img"]]
         cx, cy = rec["dims"]
         xs = acceptable_dpis(dpi[0] if dpi else None)
         ys = acceptable_dpis(dpi[1] if dpi else None)
@@ -924,6 +1004,7 @@ def nontrivial_history(hist):
 
 # ============================================================================ run
 def run(ck, tier, rng):
+    warnings.simplefilter("ignore")
     rc, out = _run(["/venv/bin/python", os.path.join(VERIF, "tx", "tx_c15.py")], cwd=VERIF)
     if rc != 0:
         ck.violation("translator", "tx_c15 failed on the current tree: " + out[-600:],
@@ -953,17 +1034,20 @@ def run(ck, tier, rng):
                     ck.notes.append("diff %r model=%s impl=%s" % (c, mo, io_))
 
     # ---- history level
-    nh = 260 if tier == "quick" else 2600
+    nh = 600 if tier == "quick" else 5000
     tmp = tempfile.mkdtemp(prefix="c15-")
     try:
         hists = [gen_history(rng, tier, i) for i in range(nh)]
+        for rep in range(1 if tier == "quick" else 6):
+            for j, (deck, nslides, nparts) in enumerate(corpus_decks()):
+                hists.append(gen_corpus_history(rng, deck, nslides, nparts, rep * 100 + j))
         mcases = []
         keep = []
         for i, hist in enumerate(hists):
             sub = os.path.join(tmp, "h%d" % i)
             os.mkdir(sub)
             deck, initial, outs, views = run_one_history(hist, sub)
-            klass = "hist:" + "+".join(sorted({op[3] if op[0] == "i" else op[0] for op in hist["ops"]}))
+            klass = ("corpus:" if hist.get("deck") else "hist:") + "+".join(sorted({op[3] if op[0] == "i" else op[0] for op in hist["ops"]}))
             ck.count(repr(hist), nontrivial_history(hist), klass)
             for rec in deck.records:
                 key = "img:%s:%s:%s" % (hist["specs"][rec["img"]]["fmt"], rec["use"], rec["via"])
@@ -1012,9 +1096,26 @@ def run(ck, tier, rng):
 def replay(rec):
     hist = rec["input"]
     if isinstance(hist, str):
-        print("unit case (repr only):", hist)
-        print("impl/model outcome recorded:", rec.get("impl_outcome"), rec.get("model_outcome"))
-        return 1
+        from PIL.TiffImagePlugin import IFDRational
+
+        case = eval(hist, {"__builtins__": {}}, {"nan": float("nan"), "inf": float("inf"), "IFDRational": IFDRational,
+                                                 "Fraction": Fraction})
+        io_ = impl_unit(case)
+        mo = run_model("C15", [model_unit(case)])[0]
+
+        class _Ck:
+            hits = []
+
+            def violation(self, sig, what, r, concrete=True):
+                self.hits.append((sig, what))
+        c = _Ck()
+        oracle_unit(c, case, io_)
+        print("case ", hist)
+        print("impl ", io_)
+        print("model", mo)
+        for s, w in c.hits:
+            print("oracle:", s, "--", w)
+        return 0 if (io_ == mo and not c.hits) else 1
     if hist["ops"] and hist["ops"][-1][0] == "ole-default-icon":
         class _Ck:
             hits = []
